@@ -18,7 +18,8 @@ SPEC = {
     "rule": "generated raw configurations (routing trees depth<=3 with receivers/matchers/group_by incl. explicit [] and '...', mute/active intervals, "
             "durations; receivers; time intervals; inhibit rules; global block; 0-2 injected faults out of 24 kinds) -> YAML -> real config.Load: accept/reject "
             "class vs AM.Config.validate, the accepted *Config re-encoded and checked against the eight well-formedness clauses, Load(Config.String()) "
-            "compared for secret-free configs; a configuration with all 18 integration kinds and 45 secret-bearing fields set to unique canaries: "
+            "compared for secret-free configs, and Config.String() compared before / after dispatch.NewRoute(cfg.Route) (a quarter of the configurations have a route "
+            "combining match / match_re with 3, 5, 6 or 7 matchers lines); a configuration with all 18 integration kinds and 45 secret-bearing fields set to unique canaries: "
             "Config.String() searched for every canary; real config.Coordinator on a file rewritten to valid/invalid/subscriber-refused configs; "
             "reflect walk over config.Config vs pinned harness/config/secret_fields.txt; malformed-input stream (null injection, line edits, "
             "type swaps, aliases, truncation, random bytes) with recover and a 5 s bound; engine `reload`: the REAL application in-process "
@@ -26,7 +27,8 @@ SPEC = {
             "valid config -> alert posted through /api/v2/alerts -> notification observed at the receiver of the routed branch; reloads (POST /-/reload "
             "and App.Reload) with configurations rejected at every reachable stage (YAML error, unknown field, undefined receiver, zero interval; template "
             "syntax error, bad template glob; receiver whose http client cannot be built; tracing TLS CA / header file missing) -> error AND a NEW alert is "
-            "still notified by the OLD routing tree's receiver AND /api/v2/status still serves the old configuration; then a valid reload takes effect; "
+            "still notified by the OLD routing tree's receiver AND /api/v2/status still serves the old configuration; then a valid reload takes effect; a reload applied while status requests are in flight (the previous configuration has 3000 routes, "
+            "the reloader is parked on a template FIFO until the requests are under way): /api/v2/status serves the new configuration afterwards; "
             "the source order of fallible / live-state steps of reloader.reload (go/ast) vs AM.Config.reloaderSteps and safeOrder. Non-trivial = hits a tagged branch; distinct = hash of the case's lines",
     "assumptions": [
         "YAML decoding itself (yaml.v2) is trusted: RawConfig is what it yields; a decoding fault is generated alone (class 'decode')",
